@@ -457,6 +457,7 @@ func (s *Server) serve(rawConn net.Conn, implicitTLS bool, sess *Session) {
 	inTxn := false
 	dataN := 0
 	lastEOD := 0
+	abandonPending, abandonN := false, 0
 
 	for {
 		line, err := c.readLine()
@@ -497,6 +498,14 @@ func (s *Server) serve(rawConn net.Conn, implicitTLS bool, sess *Session) {
 		c.step = step
 		sess.Steps = append(sess.Steps, step)
 		o := sc.outcome(step)
+		if verb == "RSET" && abandonPending {
+			// alias: the n-th RSET that abandons a transaction after a rejected MAIL, RCPT or DATA
+			abandonN++
+			if ao, ok := sc.Steps[fmt.Sprintf("rsetabandon#%d", abandonN)]; ok {
+				o = ao
+			}
+			abandonPending = false
+		}
 		if verb == "RSET" && lastEOD > 0 {
 			// alias: the RSET that follows the end-of-data of the lastEOD-th MAIL
 			alias := fmt.Sprintf("rsetafter#%d", lastEOD)
@@ -764,6 +773,8 @@ func (s *Server) serve(rawConn net.Conn, implicitTLS bool, sess *Session) {
 			if code >= 200 && code < 300 {
 				t.MailOK = true
 				txn, inTxn = t, true
+			} else {
+				abandonPending = true
 			}
 		case "RCPT":
 			if !needGreeted() {
@@ -786,6 +797,9 @@ func (s *Server) serve(rawConn net.Conn, implicitTLS bool, sess *Session) {
 				return
 			}
 			r.Accepted = code >= 200 && code < 300
+			if !r.Accepted {
+				abandonPending = true
+			}
 			txn.Rcpts = append(txn.Rcpts, r)
 		case "DATA":
 			if !needGreeted() {
@@ -822,6 +836,7 @@ func (s *Server) serve(rawConn net.Conn, implicitTLS bool, sess *Session) {
 			}
 			if code != 354 {
 				// transaction stays open; the client has to RSET (or QUIT/close)
+				abandonPending = true
 				continue
 			}
 			txn.DataOK = true
